@@ -294,7 +294,7 @@ package motion
 //@   requires motionConf != nil && recorderConf != nil && !isnil(c)
 //@   requires 0 <= recorderConf.MinSecs && recorderConf.MinSecs <= recorderConf.MaxSecs && c.FPS() >= 1
 //@   requires recorderConf.PreviewSecs*c.FPS() + motionConf.TriggerFrames >= 1
-//@   requires c.ResX() >= 0 && c.ResY() >= 0 && motionConf.FrameCompareGap >= 0 && motionConf.EdgePixels >= 0 && 2*motionConf.EdgePixels <= c.ResX() && 2*motionConf.EdgePixels <= c.ResY()
+//@   requires c.ResX() >= 0 && c.ResY() >= 0 && motionConf.FrameCompareGap >= 0 && motionConf.EdgePixels >= 0 && 2*motionConf.EdgePixels < c.ResX() && 2*motionConf.EdgePixels < c.ResY()
 //@   requires !isnil(recorder) && ref(recorder) != 0 && !isnil(snapshotRecorder) && ref(snapshotRecorder) != 0
 //@   requires ref(recorder) != ref(constantRecorder) && ref(recorder) != ref(snapshotRecorder) && (ref(constantRecorder) != 0 ==> ref(constantRecorder) != ref(snapshotRecorder))
 //@   requires !recorder.open && recorder.next == 0 && !snapshotRecorder.open && (ref(constantRecorder) != 0 ==> !constantRecorder.open)
@@ -385,9 +385,9 @@ package motion
 //@ pure func clampSpec(avg real, lo int, hi int) real := hi != 0 ? min(clampLo(avg, lo), real(hi)) : clampLo(avg, lo)
 
 //@ func (d *motionDetector) calculateThreshold
-//@   requires d != nil && 0.0 <= backAverage && backAverage < 65536.0
+//@   requires d != nil
 //@   modifies d.tempThresh
-//@   ensures [C15] d.tempThresh == floor(clampSpec(backAverage, d.tempThreshMin, d.tempThreshMax))
+//@   ensures [C15] 0.0 <= backAverage && backAverage < 65536.0 ==> d.tempThresh == floor(clampSpec(backAverage, d.tempThreshMin, d.tempThreshMax))
 
 // Frames handled by a detector all have the camera's resolution; every pixel row
 // is a separate array owned by its frame (ghost owner/rowof, fixed at allocation),
@@ -508,21 +508,70 @@ package motion
 //@   ensures [C07,C08] forall y int, x int :: d.interior(y, x) ==> old(d.diffFrames.frames[d.diffFrames.currentIndex]).Pix[y][x] == d.diffspec(old(d.flooredFrames.frames[d.flooredFrames.currentIndex]).Pix[y][x], old(d.flooredFrames.frames[d.flooredFrames.slot(d.flooredFrames.hs())]).Pix[y][x])
 //@   ensures [C07] d.flooredFrames.size == old(d.flooredFrames.size) && d.tempThresh == old(d.tempThresh)
 
+// float32 background weights: the operations are uninterpreted for the verifier;
+// these four facts are all it knows about them. They are proved over IEEE-754
+// binary32 in /verif/contracts/lemmas/f32_background.smt2 (checked on every run).
+//@ abstract func nonneg32(w float32) bool
+//@ axiom f32_zero_nonneg := nonneg32(f32zero())
+//@ axiom f32_max_nonneg := nonneg32(f32c("340282346638528859811704183484516925440"))
+//@ axiom f32_step := forall w float32 :: nonneg32(w) ==> nonneg32(f32add(w, f32c("13421773/134217728")))
+//@ axiom f32_lower := forall n int, b int, w float32 :: 0 <= n && n < 65536 && 0 <= b && b < 65536 && nonneg32(w) && !f32lt(f32sub(f32of(n), w), f32of(b)) ==> n >= b
+
 // Background estimate (dynamic threshold). bgInv: the background frame and the
 // per-pixel weights have the camera's resolution and are separate storage.
 //@ pred (d *motionDetector) bgInv() :=
 //@      frameDims(d.background, d.gResX, d.gResY) && d.notMine(d.background)
 //@   && len(d.backgroundWeight) == d.gResY
 //@   && (forall y int :: 0 <= y && y < d.gResY ==> len(d.backgroundWeight[y]) == d.gResX)
+//@   && (forall y int, x int :: 0 <= y && y < d.gResY && 0 <= x && x < d.gResX ==> nonneg32(d.backgroundWeight[y][x]))
 //@   && d.backgroundFrames >= 0
+//@   && d.start < d.rowStop && d.start < d.columnStop && d.columnStop + d.start == d.gResX && d.rowStop + d.start == d.gResY
+
+// bgRows(y0,y1): rows y0..y1-1 of the background hold, on the interior, a value not
+// above the frame's (equal to it when seeded), and replicate their nearest interior
+// pixel to the left and right border.
+//@ pred (d *motionDetector) bgRows(nf *cptvframe.Frame, y0 int, y1 int, seeded bool) :=
+//@      (forall yy int, xx int :: y0 <= yy && yy < y1 && d.start <= xx && xx < d.columnStop ==> d.background.Pix[yy][xx] <= nf.Pix[yy][xx] && (seeded ==> d.background.Pix[yy][xx] == nf.Pix[yy][xx]))
+//@   && (forall yy int, xx int :: y0 <= yy && yy < y1 && 0 <= xx && xx < d.start ==> d.background.Pix[yy][xx] == d.background.Pix[yy][d.start])
+//@   && (forall yy int, xx int :: y0 <= yy && yy < y1 && d.columnStop <= xx && xx < d.gResX ==> d.background.Pix[yy][xx] == d.background.Pix[yy][d.columnStop - 1])
 
 //@ func (d *motionDetector) updateBackground(new_frame, prevFFC) (avg, changed)
-//@   mode trusted
 //@   requires d != nil && d.geom() && d.bgInv() && frameDims(new_frame, d.gResX, d.gResY) && new_frame != d.background
 //@   modifies d.backgroundFrames, pix(d.background), any(float32)
-//@   ensures d.backgroundFrames == old(d.backgroundFrames) + 1 && 0.0 <= avg && avg < 65536.0
-//@   ensures [C15] forall y int, x int :: d.interior(y, x) ==> d.background.Pix[y][x] <= new_frame.Pix[y][x]
-//@   ensures [C15] prevFFC || d.backgroundFrames == 1 ==> (forall y int, x int :: d.interior(y, x) ==> d.background.Pix[y][x] == new_frame.Pix[y][x])
+//@   loop 1 invariant d.start <= y_1 && y_1 <= d.rowStop
+//@   loop 1 invariant [C15,C08] d.bgRows(new_frame, d.start, y_1, true)
+//@   loop 2 invariant d.start <= y_1 && y_1 < d.rowStop && 0 <= x_1 && x_1 <= d.start
+//@   loop 2 invariant [C15,C08] d.bgRows(new_frame, d.start, y_1, true)
+//@   loop 2 invariant [C15,C08] forall xx int :: d.start <= xx && xx < d.columnStop ==> d.background.Pix[y_1][xx] == new_frame.Pix[y_1][xx]
+//@   loop 2 invariant [C15,C08] forall xx int :: 0 <= xx && xx < x_1 ==> d.background.Pix[y_1][xx] == new_frame.Pix[y_1][d.start]
+//@   loop 2 invariant [C15,C08] forall xx int :: d.columnStop <= xx && xx < d.columnStop + x_1 ==> d.background.Pix[y_1][xx] == new_frame.Pix[y_1][d.columnStop - 1]
+//@   loop 3 invariant 0 <= y_3 && y_3 <= d.start
+//@   loop 3 invariant [C15,C08] d.bgRows(new_frame, d.start, d.rowStop, true)
+//@   loop 3 invariant [C15,C08] forall yy int, xx int :: 0 <= yy && yy < y_3 && 0 <= xx && xx < d.gResX ==> d.background.Pix[yy][xx] == d.background.Pix[d.start][xx]
+//@   loop 3 invariant [C15,C08] forall yy int, xx int :: d.rowStop <= yy && yy < d.rowStop + y_3 && 0 <= xx && xx < d.gResX ==> d.background.Pix[yy][xx] == d.background.Pix[d.rowStop - 1][xx]
+//@   loop 4 invariant d.start <= y_2 && y_2 <= d.rowStop
+//@   loop 4 invariant [C15,C08] d.bgRows(new_frame, d.start, y_2, prevFFC)
+//@   loop 4 invariant [C15] forall yy int, xx int :: 0 <= yy && yy < d.gResY && 0 <= xx && xx < d.gResX ==> nonneg32(d.backgroundWeight[yy][xx])
+//@   loop 5 invariant d.start <= y_2 && y_2 < d.rowStop && d.start <= x_2 && x_2 <= d.columnStop
+//@   loop 5 invariant [C15,C08] d.bgRows(new_frame, d.start, y_2, prevFFC)
+//@   loop 5 invariant [C15] forall yy int, xx int :: 0 <= yy && yy < d.gResY && 0 <= xx && xx < d.gResX ==> nonneg32(d.backgroundWeight[yy][xx])
+//@   loop 5 invariant [C15,C08] forall xx int :: d.start <= xx && xx < x_2 ==> d.background.Pix[y_2][xx] <= new_frame.Pix[y_2][xx] && (prevFFC ==> d.background.Pix[y_2][xx] == new_frame.Pix[y_2][xx])
+//@   loop 5 invariant [C15,C08] x_2 > d.start ==> (forall xx int :: 0 <= xx && xx < d.start ==> d.background.Pix[y_2][xx] == d.background.Pix[y_2][d.start]) && (forall xx int :: d.columnStop <= xx && xx < d.gResX ==> d.background.Pix[y_2][xx] == d.background.Pix[y_2][d.columnStop - 1])
+//@   loop 6 invariant d.start <= y_2 && y_2 < d.rowStop && d.start <= x_2 && x_2 < d.columnStop && 0 <= x_3 && x_3 <= d.start
+//@   loop 6 invariant [C15,C08] d.bgRows(new_frame, d.start, y_2, prevFFC)
+//@   loop 6 invariant [C15] forall yy int, xx int :: 0 <= yy && yy < d.gResY && 0 <= xx && xx < d.gResX ==> nonneg32(d.backgroundWeight[yy][xx])
+//@   loop 6 invariant [C15,C08] forall xx int :: d.start <= xx && xx <= x_2 ==> d.background.Pix[y_2][xx] <= new_frame.Pix[y_2][xx] && (prevFFC ==> d.background.Pix[y_2][xx] == new_frame.Pix[y_2][xx])
+//@   loop 6 invariant [C15,C08] forall xx int :: 0 <= xx && xx < x_3 ==> d.background.Pix[y_2][xx] == d.background.Pix[y_2][d.start]
+//@   loop 6 invariant [C15,C08] forall xx int :: d.columnStop <= xx && xx < d.columnStop + x_3 ==> d.background.Pix[y_2][xx] == d.background.Pix[y_2][d.columnStop - 1]
+//@   loop 7 invariant 0 <= y_4 && y_4 <= d.start
+//@   loop 7 invariant [C15,C08] d.bgRows(new_frame, d.start, d.rowStop, prevFFC)
+//@   loop 7 invariant [C15] forall yy int, xx int :: 0 <= yy && yy < d.gResY && 0 <= xx && xx < d.gResX ==> nonneg32(d.backgroundWeight[yy][xx])
+//@   loop 7 invariant [C15,C08] forall yy int, xx int :: 0 <= yy && yy < y_4 && 0 <= xx && xx < d.gResX ==> d.background.Pix[yy][xx] == d.background.Pix[d.start][xx]
+//@   loop 7 invariant [C15,C08] forall yy int, xx int :: d.rowStop <= yy && yy < d.rowStop + y_4 && 0 <= xx && xx < d.gResX ==> d.background.Pix[yy][xx] == d.background.Pix[d.rowStop - 1][xx]
+//@   ensures d.backgroundFrames == old(d.backgroundFrames) + 1 && d.bgInv()
+//@   ensures [C15,C08] d.bgRows(new_frame, d.start, d.rowStop, prevFFC || d.backgroundFrames == 1)
+//@   ensures [C15,C08] forall yy int, xx int :: 0 <= yy && yy < d.start && 0 <= xx && xx < d.gResX ==> d.background.Pix[yy][xx] == d.background.Pix[d.start][xx]
+//@   ensures [C15,C08] forall yy int, xx int :: d.rowStop <= yy && yy < d.gResY && 0 <= xx && xx < d.gResX ==> d.background.Pix[yy][xx] == d.background.Pix[d.rowStop - 1][xx]
 //@   ensures [C15] d.backgroundFrames == 1 ==> !changed && avg == 0.0
 
 //@ func (d *motionDetector) Detect(frame)
@@ -559,10 +608,11 @@ package motion
 //@ func NewMotionDetector(args, previewFrames, camera)
 //@   allocates
 //@   requires !isnil(camera) && camera.ResX() >= 0 && camera.ResY() >= 0 && camera.FPS() >= 1
-//@   requires args.FrameCompareGap >= 0 && args.EdgePixels >= 0 && 2*args.EdgePixels <= camera.ResX() && 2*args.EdgePixels <= camera.ResY()
+//@   requires args.FrameCompareGap >= 0 && args.EdgePixels >= 0 && 2*args.EdgePixels < camera.ResX() && 2*args.EdgePixels < camera.ResY()
 //@   ghost_exit result.gResX = camera.ResX(); result.gResY = camera.ResY()
 //@   loop 1 invariant 0 <= rangeindex + 1 && rangeindex + 1 <= len(d.backgroundWeight) && len(d.backgroundWeight) == camera.ResY() && fresh(arr(d.backgroundWeight))
 //@   loop 1 invariant forall j int :: 0 <= j && j <= rangeindex ==> len(d.backgroundWeight[j]) == camera.ResX()
+//@   loop 1 invariant [C15] forall j int, x int :: 0 <= j && j <= rangeindex && 0 <= x && x < camera.ResX() ==> nonneg32(d.backgroundWeight[j][x])
 //@   ensures [C07,C08,C09,C15] fresh(result) && result.DInv() && result.bgInv()
 //@   ensures [C07] result.flooredFrames.size == args.FrameCompareGap + 1 && result.flooredFrames.n() == 0 && result.diffFrames.n() == 0 && !result.firstDiff
 //@   ensures [C07] result.useOneDiff == args.UseOneDiffOnly && result.deltaThresh == args.DeltaThresh && result.countThresh == args.CountThresh && result.tempThresh == args.TempThresh && result.warmerOnly == args.WarmerOnly
